@@ -131,15 +131,23 @@ def intLimits : List String := [
 def mapRanges : List String := [
   ". allKeys: range keySet",
   ". allKeys: range m",
+  ". var.Run: calls allKeys(schemaPackageMap, schemaOutputMap, schemaRootTypeMap) [ranges over a map, does not sort]",
   ". var.Run: range generator.Sources()",
   "pkg/generator Generator.Sources: range g.outputs",
   "pkg/generator Generator.Sources: range sources",
   "pkg/generator Generator.beginOutput: range g.outputs",
+  "pkg/generator Generator.findOutputFileForSchemaID: calls beginOutput(id, g.config.DefaultOutputName, g.config.DefaultPackageName) [ranges over a map, does not sort]",
+  "pkg/generator Generator.findOutputFileForSchemaID: calls beginOutput(id, m.OutputName, m.PackageName) [ranges over a map, does not sort]",
   "pkg/generator sortDefinitionsByName: range defs",
   "pkg/generator sortedKeys: range props",
+  "pkg/schemas Schema.UnmarshalJSON: calls checkNoNullSubschemas((*Type)(unmarshSchema.ObjectAsType)) [ranges over a map, does not sort]",
   "pkg/schemas Schema.UnmarshalJSON: range unmarshSchema.Definitions",
+  "pkg/schemas Type.UnmarshalJSON: calls checkNoNullSubschemas((*Type)(&obj)) [ranges over a map, does not sort]",
   "pkg/schemas checkNoNullSubschemas: range m",
+  "pkg/yamlutils FixMapKeys: calls fixMapKeysIn(v) [ranges over a map, does not sort]",
   "pkg/yamlutils FixMapKeys: range m",
+  "pkg/yamlutils fixMapKeysIn: calls fixMapKeysIn(elem) [ranges over a map, does not sort]",
+  "pkg/yamlutils fixMapKeysIn: calls fixMapKeysIn(v) [ranges over a map, does not sort]",
   "pkg/yamlutils fixMapKeysIn: range t"
 ]
 
